@@ -9,6 +9,7 @@ PROP = dict(
         dict(module="MCServePipeline", cfg="MCServePipeline_alt.cfg", expect_violation="Private", timeout=300),
         dict(module="MCServePipeline", cfg="MCServePipeline_bound.cfg", expect_violation="Private", timeout=300),
         dict(module="MCAccessorMemo", cfg=dict(quick="MCAccessorMemo_quick.cfg", thorough="MCAccessorMemo_thorough.cfg"), timeout=900),
+        dict(module="MCAccessorMemo", cfg="MCAccessorMemo_unbounded.cfg", timeout=600, workers=2),
         dict(module="MCAccessorMemo", cfg="MCAccessorMemo_mutant.cfg", expect_violation="Memo", timeout=300),
     ],
     gen=[
@@ -25,7 +26,8 @@ PROP = dict(
                "to the shared route entry. TLC exports the interleavings (context-switch bound 2 quick / 3 thorough, all operation "
                "pairs) and the gated replayer executes each against ONE real handler instance, the hooks being the scheduler gates; "
                "every recorded event is validated against the spec. AccessorMemo models the per-request memo cells; TLC checks the "
-               "reuse facts on all histories and exports every accessor history (length 3 / 4, 87 request kinds) which are replayed "
+               "reuse facts on all histories (of ANY length: with the call counter projected away by a VIEW the memo state space is "
+               "finite, 2 220 states, and is explored completely) and exports every accessor history (length 3 / 4, 87 request kinds) which are replayed "
                "on a real Context with call counters. Free-running batches (4/16/64 goroutines, GOMAXPROCS 1/4/16) run under the race "
                "detector; their per-request projections are validated by the same spec and a race report is a rejected event.",
     level_note="interleavings are controlled at hook/callback granularity only; inside a stage only the free-running -race runs look; "
